@@ -59,6 +59,9 @@ pub enum Placement {
     Absolute,    // <sb>/abs/gen
     Nested,      // ./a/b/gen
     DefaultDir,  // ./src/generated (the built-in default spelled out)
+    /// ./ui/../gen-link where ./ui is a symbolic link to <sb>/packages/ui: the operating system
+    /// resolves it to <sb>/packages/gen-link (not to ./gen-link beside the link)
+    ThroughLink,
 }
 pub const PLACEMENTS: [Placement; 6] = [Placement::Beside, Placement::Inside, Placement::ParentRel, Placement::Absolute, Placement::Nested, Placement::DefaultDir];
 
@@ -71,6 +74,7 @@ impl Placement {
             Placement::Absolute => sb_root.join("abs/gen").to_string_lossy().to_string(),
             Placement::Nested => "./a/b/gen".into(),
             Placement::DefaultDir => "./src/generated".into(),
+            Placement::ThroughLink => "./ui/../gen-link".into(),
         }
     }
     fn abs(self, sb_root: &Path) -> PathBuf {
@@ -81,6 +85,7 @@ impl Placement {
             Placement::Absolute => sb_root.join("abs/gen"),
             Placement::Nested => sb_root.join("w/a/b/gen"),
             Placement::DefaultDir => sb_root.join("w/src/generated"),
+            Placement::ThroughLink => sb_root.join("packages/gen-link"),
         }
     }
 }
@@ -99,6 +104,10 @@ pub enum Act {
     /// generate with `-p` / `-o` flags while a discovered ./tauri.conf.json names another output
     /// directory (which holds checked-in files): the flags decide where anything is written
     GenFlagsOverConf,
+    /// `init -o ./tauri.conf.json` (spelled with the leading `./`) from a directory that has such a
+    /// file, while the project path holds a tauri.conf.json of its own: only the file that was
+    /// pointed at may change
+    InitAtRootConf,
 }
 pub const ACTS: [Act; 8] = [Act::Gen, Act::GenForce, Act::Build, Act::Init, Act::EmptyThenGen, Act::NoEventsThenGen, Act::NoEventsThenBuild, Act::GenFlagsOverConf];
 
@@ -153,6 +162,9 @@ fn allowed_change(rel: &str, out_rel: &str, act: Act) -> bool {
     if act == Act::Init && rel == "w/src-tauri/tauri.conf.json" {
         return true;
     }
+    if act == Act::InitAtRootConf && rel == "w/tauri.conf.json" {
+        return true;
+    }
     false
 }
 
@@ -180,6 +192,8 @@ fn mutated_paths(log: &str, cwd: &Path) -> Vec<(String, PathBuf)> {
             continue;
         }
         for s in strs {
+            // (./ui is a link to ../packages/ui in the ThroughLink placement: ui/.. is ../packages)
+            let s = s.replacen("ui/../", "../packages/", 1);
             let p = if Path::new(&s).is_absolute() { PathBuf::from(&s) } else { cwd.join(&s) };
             v.push((call.to_string(), normalize(&p)));
         }
@@ -248,6 +262,15 @@ pub fn eval(case: &Case) -> (Vec<Violation>, u64, Vec<String>) {
     std::fs::create_dir_all(w.join("conf-out")).unwrap();
     std::fs::write(w.join("conf-out/index.ts"), "// checked in by hand\n").unwrap();
     std::fs::write(w.join("conf-out/types.ts"), "// checked in by hand\n").unwrap();
+    if case.placement == Placement::ThroughLink {
+        std::fs::create_dir_all(sb.path("packages/ui")).unwrap();
+        std::fs::write(sb.path("packages/ui/button.ts"), "// a component\n").unwrap();
+        std::os::unix::fs::symlink("../packages/ui", w.join("ui")).unwrap();
+        // what a path folded as text would hit instead
+        std::fs::create_dir_all(w.join("gen-link")).unwrap();
+        std::fs::write(w.join("gen-link/index.ts"), "// written by hand, beside the link\n").unwrap();
+        std::fs::write(w.join("gen-link/types.ts"), "// written by hand, beside the link\n").unwrap();
+    }
     let od = case.placement.abs(&sb.root);
     if case.preexisting_outdir || !case.foreign.is_empty() {
         std::fs::create_dir_all(&od).unwrap();
@@ -268,6 +291,7 @@ pub fn eval(case: &Case) -> (Vec<Violation>, u64, Vec<String>) {
             Act::NoEventsThenGen | Act::NoEventsThenBuild => project = strip_events(&project),
             _ => {}
         }
+        let _ = std::fs::remove_file(w.join("tauri.conf.json")); // left by an InitAtRootConf step
         // rewrite sources (keeps tauri.conf.json of init intact: write_sources wipes src-tauri, so restore it)
         let conf = std::fs::read(w.join("src-tauri/tauri.conf.json")).unwrap_or_default();
         // preserve an output directory nested inside the project
@@ -302,6 +326,17 @@ pub fn eval(case: &Case) -> (Vec<Violation>, u64, Vec<String>) {
                 let args: Vec<String> = vec!["tauri-typegen".into(), "generate".into(), "-p".into(), "./src-tauri".into(), "-o".into(), cfg.output_path.clone()];
                 let r = run::spawn(Spawn { program: run::cli_binary(), args, cwd: &w, schedule_env: None, trace_file: None, strace: strace.clone() , hash_seed: None, fsize_limit: None});
                 let _ = std::fs::remove_file(&conf);
+                r
+            }
+            Act::InitAtRootConf => {
+                let conf = w.join("tauri.conf.json");
+                std::fs::write(&conf, "{\n  \"productName\": \"workspace\",\n  \"plugins\": { \"fs\": { \"scope\": [\"$APP\"] } }\n}\n").unwrap();
+                let mut args: Vec<String> = vec!["tauri-typegen".into(), "init".into(), "-p".into(), "./src-tauri".into(), "-o".into(), "./tauri.conf.json".into(), "-g".into(), cfg.output_path.clone(), "-v".into(), cfg.mode_name().into()];
+                if case.visualize {
+                    args.push("--visualize-deps".into());
+                }
+                // (the file exists before the snapshot is compared: taken again here)
+                let r = run::spawn(Spawn { program: run::cli_binary(), args, cwd: &w, schedule_env: None, trace_file: None, strace: strace.clone(), hash_seed: None, fsize_limit: None });
                 r
             }
             Act::Init => {
@@ -347,7 +382,8 @@ pub fn eval(case: &Case) -> (Vec<Violation>, u64, Vec<String>) {
                     || p.starts_with("/dev")
                     || p.starts_with("/proc")
                     || p == strace_log
-                    || (*act == Act::Init && p == conf_path);
+                    || (*act == Act::Init && p == conf_path)
+                    || (*act == Act::InitAtRootConf && p == w.join("tauri.conf.json"));
                 if !ok {
                     bad.push(format!("syscall {} on {} (outside the output directory)", call, p.display()));
                 }
@@ -468,6 +504,25 @@ pub fn run(tier: Tier) -> CheckResult {
                         strace,
                     });
                 }
+            }
+        }
+    }
+    // init pointed at ./tauri.conf.json while the project path has one of its own
+    for (pi, placement) in PLACEMENTS.iter().enumerate() {
+        for h in [vec![Act::InitAtRootConf], vec![Act::Gen, Act::InitAtRootConf], vec![Act::InitAtRootConf, Act::Gen]] {
+            for zod in [false, true] {
+                cases.push(Case { placement: *placement, foreign: if pi % 2 == 0 { vec![] } else { all.clone() }, preexisting_outdir: pi % 2 == 1, zod, visualize: pi % 3 == 0, history: h.clone(), strace: zod });
+            }
+        }
+    }
+    // the output path runs through a symbolic link and back out of it
+    for (fi, foreign) in foreign_sets.iter().enumerate().filter(|(_, f)| f.len() != 2) {
+        for (hi, h) in hist.iter().enumerate().filter(|(_, h)| h.len() == 1 || (h.len() == 2 && tier == Tier::Thorough)) {
+            for zod in [false, true] {
+                if zod && (fi + hi) % 3 != 0 {
+                    continue;
+                }
+                cases.push(Case { placement: Placement::ThroughLink, foreign: foreign.clone(), preexisting_outdir: (fi + hi) % 2 == 0, zod, visualize: (fi + hi) % 4 == 0, history: h.clone(), strace: (fi + hi) % 3 == 0 });
             }
         }
     }
